@@ -14,7 +14,8 @@ from vlib.runcfg import run
 ID = "C05"
 LEVEL = "exploration"
 RULE = (
-    "case = generated round-robin configuration (as C01: all nine samplers, all losses, ensemble 1-3) and a total of n "
+    "case = generated round-robin configuration (as C01: all nine samplers, all losses, ensemble 1-3; a fifth of the cases on "
+    "a grid of at most a few dozen points so that proposals collide with the history) and a total of n "
     "batches; for n <= 4 every labelling of the n-1 gaps with {no cut, plain second calibrate(), checkpoint/restore/continue} "
     "(3^(n-1) segmented runs), for n up to 8 a seeded sample of labellings incl. chains of 2-3 restores. Oracle: at every "
     "boundary the segmented run's five history arrays equal, byte for byte, the same-length prefix of an uninterrupted twin, "
@@ -25,7 +26,7 @@ ASSUMPTIONS = [
     "as C01 (no HP-based filters; third-party determinism trusted)",
     "the RL scheduler is limited to one session by the quantifier and takes no part in cuts",
 ]
-REQUIRED_COUNTERS = {"segmented_runs": 150, "restore_cuts": 100, "plain_cuts": 100, "cuts_before_stateful": 80, "restore_chains": 10}
+REQUIRED_COUNTERS = {"tiny_grid_cases": 5, "segmented_runs": 150, "restore_cuts": 100, "plain_cuts": 100, "cuts_before_stateful": 80, "restore_chains": 10}
 REQUIRED_COUNTERS.update({f"cut_before_{k}": 1 for k in G.SAMPLER_KINDS})
 SHARDS = {"quick": 16, "thorough": 16}
 SHARD_WATCHDOG = {"quick": 1500, "thorough": 10800}
@@ -49,14 +50,18 @@ def run_case(desc, ctx):
     c = out["counters"]
     heavy = i % 3 == 0
     kinds = None if heavy else G.CHEAP + ["XGBoost"]
-    cfg = CG.gen_config(rng, kinds=kinds, n_samplers=int(rng.integers(1, 5)), max_bs=2, scheduler=str(rng.choice(["list", "rr"])))
+    tiny = i % 5 == 3   # a grid with about as many points as the run has rows: proposals collide with the history, de-duplication works hard
+    cfg = CG.gen_config(rng, kinds=kinds, n_samplers=int(rng.integers(2, 5)) if tiny else int(rng.integers(1, 5)), max_bs=2, scheduler=str(rng.choice(["list", "rr"])),
+                        **({"max_points": 4, "max_params": 2} if tiny else {}))
+    if tiny:
+        c["tiny_grid_cases"] = 1
     if heavy:
         k = G.SAMPLER_KINDS[(i // 3) % 9]
         if k in G.HISTORY_FREE:
             cfg["lineup"].insert(int(rng.integers(0, len(cfg["lineup"]) + 1)), G.gen_sampler_desc(rng, k, batch_size=1))
         else:
             cfg["lineup"].insert(int(rng.integers(1, len(cfg["lineup"]) + 1)), G.gen_sampler_desc(rng, k, batch_size=1))
-    if any(d["kind"] in ("CORS", "ParticleSwarm", "GaussianProcess") for d in cfg["lineup"]) and i % 2:
+    if any(d["kind"] in ("CORS", "ParticleSwarm", "GaussianProcess") for d in cfg["lineup"]) and i % 2 and not tiny:
         cfg["space"] = G.gen_space(rng, dims=cfg["P"], fine=True)   # continuous-state samplers: let small state differences reach the grid
     L = len(cfg["lineup"])
     small = i % 2 == 0
